@@ -555,11 +555,16 @@ def check_C01(ctx: Ctx) -> None:
         eff = _effective_class(c)
         if eff != c["cls"] and c["cls"] != "T":
             pass
-        want = expected_events(c["stmts"], eff if eff != "G" else "Q")
         # the data was generated for class cls; flat/grouped re-guess the class from the data
-        if c["entry"].startswith("grouped") and eff == "Q" and c["cls"] == "T":
+        if c["entry"].startswith("grouped") and eff == "Q" and c["cls"] == "T" and not any(len(st) == 3 for st in c["stmts"]):
             ctx.dist["skipped:grouped-empty-first"] += 1
             continue
+        kind = eff if eff != "G" else "Q"
+        if kind == "Q" and any(len(st) == 3 for st in c["stmts"]):
+            # triples were WRITTEN although the class guessed from the first sink could not take them (the unchanged code raises
+            # there): whatever a writer accepts must read back as it was given
+            kind = "T"
+        want = expected_events(c["stmts"], kind)
         try:
             got = [e for e in real_parse_flat(b)]
         except Exception as e:  # noqa: BLE001
